@@ -7,6 +7,7 @@ import BstreamVerif.Drv.Files
 import BstreamVerif.Drv.IndexDrv
 import BstreamVerif.Drv.FileDrv
 import BstreamVerif.Drv.StreamDrv
+import BstreamVerif.Drv.ConcDrv
 /-
 bsmodel: reads the harness file (op / impl lines grouped in cases) on stdin, prints for every `op`
 line the model's answer (`model …`) and the monitor verdict on the implementation's answer.
@@ -35,6 +36,8 @@ def statefulCase (suite : String) (hdr : List String) (body : List (List String)
   | "faults" => some (FileDrv.handleFaults hdr body)
   | "resolver" => some (FileDrv.handleResolver hdr body)
   | "stream" => some (StreamDrv.handle hdr body)
+  | "shutdown" => some (ConcDrv.handleShutdown hdr body)
+  | "hubsubs" => some (ConcDrv.handleHubSubs hdr body)
   | _ => none
 
 def processCase (out : IO.FS.Stream) (hdr : List String) (body : Array (List String)) : IO Unit := do
